@@ -41,6 +41,8 @@ structure Env where
   aborted : List Bool := []       -- per connection: the harness client aborted during a response write (`cx`)
   tls : List Bool := []           -- per connection: the harness client started a TLS handshake (`tls`)
   h2 : List Bool := []            -- per connection: an HTTP/2 session was negotiated and used (`h2`)
+  openB : List (List Bool) := []  -- per connection, parallel to `sent`: the request's announced body was not sent completely
+  tail : List Bool := []          -- per connection: the client has sent the rest of that body (`snd:k:t`)
 
 def getD {α} (l : List α) (k : Nat) (d : α) : α := (l[k]?).getD d
 
@@ -93,6 +95,10 @@ def catchUpWrite (s : Sys) (k : Nat) : Sys :=
   | some h => if h.secure then tryAll s [.h k .decide, .h k .writeStart, .h k .writeEnd] else s
   | none => s
 
+/-- The deferred `req.Body.Close()` returns once the client has sent the rest of the body or gone away. -/
+def catchUpBody (env : Env) (s : Sys) (k : Nat) : Sys :=
+  if getD env.peerDone k false ∨ getD env.tail k false then tryStep s (.h k .bodyDone) else s
+
 /-- Steps of the client of a MITM'd tunnel up to the serving loop, justified by `tls:k`. -/
 def catchUpTls (env : Env) (s : Sys) (k : Nat) : Sys :=
   if getD env.h2 k false then
@@ -131,15 +137,19 @@ def applyEv (env : Env) (s : Sys) (ev : List String) : Option Sys :=
     | none => none
   | ["snd", _, "f", _] => some s
   | ["snd", _, "c"] => some s
+  | ["snd", _, "u", _, _] => some s
+  | ["snd", _, "t"] => some s
   | ["rqs", k] =>
     match k.toNat? with
     | some k => match s.hs[k]? with
       | some _ =>
-        let s := catchUpTls env (catchUpWrite s k) k
+        let s := catchUpBody env (catchUpTls env (catchUpWrite s k) k) k
         match s.hs[k]? with
         | some h =>
           match (getD env.sent k [])[h.reqs]? with
-          | some (some rc) => runAll s [.h k (.gotReq rc), .h k .reqmodStart]
+          | some (some rc) =>
+            if getD (getD env.openB k []) h.reqs false then runAll s [.h k (.gotReqOpen rc), .h k .reqmodStart]
+            else runAll s [.h k (.gotReq rc), .h k .reqmodStart]
           | some none => runAll s [.h k .gotConnect, .h k .reqmodStart]
           | none => none
         | none => none
@@ -192,7 +202,7 @@ def applyEv (env : Env) (s : Sys) (ev : List String) : Option Sys :=
       let s := catchUpTls env s k
       let s := if gone then tryAll s [.h k .tunnelEnd, .h k (.peeked false)] else s
       let s := if getD env.aborted k false then tryStep s (.h k .writeErr) else s
-      let s := catchUpWrite s k
+      let s := catchUpBody env (catchUpWrite s k) k
       let s := match s.hs[k]? with
         | some h =>
           if h.pc.readable then
@@ -237,11 +247,23 @@ def updEnv (env : Env) (ev : List String) : Env :=
   match ev with
   | ["snd", k, "f", rc] =>
     match k.toNat?, bit rc with
-    | some k, some rc => { env with sent := setPad env.sent k [] (getD env.sent k [] ++ [some rc]) }
+    | some k, some rc => { env with sent := setPad env.sent k [] (getD env.sent k [] ++ [some rc]),
+                                    openB := setPad env.openB k [] (getD env.openB k [] ++ [false]) }
     | _, _ => env
+  | ["snd", k, "u", rc, d] =>
+    -- d = 0: the deferred `req.Body.Close()` will not read the rest (Connection: close, body without trailer)
+    match k.toNat?, bit rc, bit d with
+    | some k, some rc, some d => { env with sent := setPad env.sent k [] (getD env.sent k [] ++ [some rc]),
+                                            openB := setPad env.openB k [] (getD env.openB k [] ++ [d]) }
+    | _, _, _ => env
+  | ["snd", k, "t"] =>
+    match k.toNat? with
+    | some k => { env with tail := setPad env.tail k false true }
+    | none => env
   | ["snd", k, "c"] =>
     match k.toNat? with
-    | some k => { env with sent := setPad env.sent k [] (getD env.sent k [] ++ [none]) }
+    | some k => { env with sent := setPad env.sent k [] (getD env.sent k [] ++ [none]),
+                           openB := setPad env.openB k [] (getD env.openB k [] ++ [false]) }
     | none => env
   | ["tcl", k] =>
     match k.toNat? with
@@ -274,6 +296,8 @@ def accept : List String → Nat → Env → List Sys → String
     let env1 := match ev with
       | ["snd", _, "f", _] => updEnv env ev
       | ["snd", _, "c"] => updEnv env ev
+      | ["snd", _, "u", _, _] => updEnv env ev
+      | ["snd", _, "t"] => updEnv env ev
       | ["tcl", _] => updEnv env ev
       | ["cx", _] => updEnv env ev
       | ["tls", _] => updEnv env ev
